@@ -403,7 +403,8 @@ def h_iscomplete(clsname, st):
         expect = False
     else:
         expect = (npos0 == nreq) and pend0 is None
-    prove(r is expect, "iscomplete.value")
+    # truthiness is what every caller uses (the pending-parameter case yields None, which is falsy)
+    prove((True if r else False) is expect, "iscomplete.value")
     prove(cmd.rargs_cnt == npos0 and pending_of(cmd) == pend0 and cmd.nextargpos == nap0
           and len(changed_keys(pre_args, cmd.arguments)) == 0, "iscomplete.frame")
     prove(inv_holds(cmd), "iscomplete.inv")
@@ -417,3 +418,63 @@ def h_init(clsname):
           and cmd.arguments == {} and cmd.extra_arguments == {} and cmd.children == [] and cmd.parent is None,
           "init.state")
     prove(cmd.name == clsname[:-len("Command")].lower(), "init.name")
+
+
+# ----------------------------------------------------------------------------- C03.A6 sequence-level: optional positional
+
+def h_optional_positional(clsname):
+    """<cmd> "var" "flags": both strings must end up recorded (variable name and list of flags), neither overwritten."""
+    cls = getattr(commands, clsname)
+    cmd = cls(None)
+    commands.RequireCommand.loaded_extensions = sym_set("loaded")
+    a = sym_str("first")
+    b = sym_str("second")
+    r1 = cmd.check_next_arg("string", a)
+    r2 = cmd.check_next_arg("string", b)
+    if getattr(cls, "non_deterministic_args", False):
+        cmd.reassign_arguments()
+    opt = [d["name"] for d in cls.args_definition if not d.get("required", False) and "tag" not in d["type"]][0]
+    req = [d["name"] for d in cls.args_definition if d.get("required", False)][0]
+    prove(r1 is True and r2 is True, "optpos.both-strings-accepted")
+    prove(opt in cmd.arguments and req in cmd.arguments, "optpos.both-strings-recorded")
+    if opt in cmd.arguments and req in cmd.arguments:
+        prove(same(cmd.arguments[opt], a) and same(cmd.arguments[req], b), "optpos.recorded-in-order")
+
+
+def h_addchild():
+    parent = commands.IfCommand(None)
+    c1 = opaque("child1")
+    c2 = opaque("child2")
+    parent.children = [c1]
+    r = parent.addchild(c2)
+    prove(r is True and len(parent.children) == 2 and parent.children[0] is c1 and parent.children[1] is c2,
+          "addchild.appends-exactly-the-child")
+    leaf = commands.StopCommand(None)
+    r = leaf.addchild(c2)
+    prove(r is False and leaf.children == [], "addchild.refused-by-commands-without-block")
+
+
+def h_reassign(clsname):
+    """reassign_arguments moves the optional positional into the required slot when only the former was given; it never
+    drops a value and touches nothing else (C03.A6)"""
+    cls = getattr(commands, clsname)
+    cmd = cls(None)
+    D = cls.args_definition
+    opt = [d["name"] for d in D if not d.get("required", False) and "tag" not in d["type"]][0]
+    req = [d["name"] for d in D if d.get("required", False)][0]
+    v_opt = opaque("value_in_optional_slot")
+    v_req = opaque("value_in_required_slot")
+    has_opt = sym_bool("has_optional")
+    has_req = sym_bool("has_required")
+    cmd.arguments = sdict({opt: (has_opt, v_opt), req: (has_req, v_req), "match-type": (sym_bool("has_mt"), opaque("mt"))})
+    pre = snapshot(cmd.arguments)
+    cmd.reassign_arguments()
+    e_opt = entry_of(cmd.arguments, opt)
+    e_req = entry_of(cmd.arguments, req)
+    if has_opt and not has_req:
+        prove(e_req[0] is True and e_req[1] is v_opt, "record.reassign.moves-the-value")
+        prove(e_opt[0] is False, "record.reassign.optional-slot-emptied")
+        prove(cmd.rargs_cnt == 1, "record.reassign.counts-the-required-argument")
+    else:
+        prove(len(changed_keys(pre, cmd.arguments)) == 0, "record.reassign.otherwise-unchanged")
+    prove("match-type" not in changed_keys(pre, cmd.arguments), "record.reassign.frame")
